@@ -5,6 +5,7 @@ package main
 import (
 	"fmt"
 	"strings"
+	"sync"
 	"time"
 
 	tea "github.com/charmbracelet/bubbletea"
@@ -24,6 +25,123 @@ func scenFinal(out *scenOut, r *rng, thorough bool) {
 		updates := []int{0, 1, 2, 5, 20, 120}[r.intn(6)]
 		shape := r.intn(4)
 		finalOnce(out, fps, updates, shape, r.chance(1, 2), r.chance(1, 4))
+	}
+	// the window inside a frame's output: the writer is held in the middle of painting
+	// a frame while the last updates and the quit arrive
+	g := 6
+	if thorough {
+		g = 40
+	}
+	for i := 0; i < g; i++ {
+		fps := []int{60, 120}[r.intn(2)]
+		updates := []int{1, 2, 5, 20}[r.intn(4)]
+		finalGated(out, fps, updates, r.intn(2), r.chance(1, 2))
+	}
+}
+
+// gateBuf holds the first write that contains `mark` until released.
+type gateBuf struct {
+	b       *safeBuffer
+	mark    string
+	entered chan struct{}
+	release chan struct{}
+	used    bool
+	mu      sync.Mutex
+}
+
+func (g *gateBuf) Write(p []byte) (int, error) {
+	g.mu.Lock()
+	hold := !g.used && strings.Contains(string(p), g.mark)
+	if hold {
+		g.used = true
+	}
+	g.mu.Unlock()
+	if hold {
+		close(g.entered)
+		<-g.release
+	}
+	return g.b.Write(p)
+}
+
+// finalGated: the output writer stalls inside the write of the first frame; meanwhile the
+// updates and the quit are sent. The writer is released when the program's context is done
+// (an implementation that lets the event loop run on while a frame is going out gets there)
+// or after a grace period (the event loop is waiting for the renderer: the normal case).
+func finalGated(out *scenOut, fps, updates, shape int, quitCmd bool) {
+	ctl := newRecCtl()
+	buf := &safeBuffer{}
+	ctl.viewOf = func(version, ups int) string { return finalView(shape, ups) }
+	ctl.onUpdate = func(m tea.Msg, v int) tea.Cmd {
+		if u, ok := m.(userMsg); ok && quitCmd && u.Sender == 0 && u.Seq == updates-1 {
+			return tea.Quit
+		}
+		return nil
+	}
+	desc := fmt.Sprintf("gated-writer fps=%d updates=%d shape=%d quit-by-command=%t", fps, updates, shape, quitCmd)
+	w := &gateBuf{b: buf, mark: "count 0", entered: make(chan struct{}), release: make(chan struct{})}
+	p := tea.NewProgram(recModel{c: ctl}, tea.WithInput(nil), tea.WithoutSignalHandler(), tea.WithFPS(fps), tea.WithOutput(w))
+	run := &progRun{p: p, ctl: ctl, out: buf, done: make(chan struct{})}
+	go func() { defer close(run.done); run.model, run.err = p.Run() }()
+	select {
+	case <-w.entered:
+	case <-time.After(5 * time.Second):
+		close(w.release)
+		run.p.Kill()
+		run.wait(5 * time.Second)
+		out.record(desc+" (first frame never written)", "gated-none")
+		return
+	}
+	go func() {
+		for k := 0; k < updates; k++ {
+			run.p.Send(userMsg{0, k})
+		}
+		if !quitCmd {
+			run.p.Quit()
+		}
+	}()
+	select {
+	case <-tea.VerifCtx(p).Done():
+	case <-run.done:
+	case <-time.After(120 * time.Millisecond):
+	}
+	close(w.release)
+	if !run.wait(8 * time.Second) {
+		out.fail(finding{Property: "C07", Class: "new", What: "Run did not return after quit", Input: desc})
+		return
+	}
+	out.record(desc, fmt.Sprintf("gated fps=%d updates=%d shape=%d", fps, updates, shape))
+	checkFinalScreen(out, desc, buf.String(), finalView(shape, updates), 80, 24)
+}
+
+// checkFinalScreen: every newline-terminated line of the final view is in place, the
+// cursor is parked at the first column of the (empty) line after them, nothing below.
+func checkFinalScreen(out *scenOut, desc, written, v string, tw, th int) {
+	t := newVterm(tw, th)
+	t.write([]byte(written))
+	lines := strings.Split(v, "\n")
+	term := lines[:len(lines)-1]
+	b := t.main
+	start := b.cr - len(term)
+	if start < 0 {
+		out.fail(finding{Property: "C07", Class: "new", What: "cursor not parked below the final view", Input: desc, Observed: fmt.Sprintf("cursor row %d, %d terminated lines", b.cr, len(term))})
+		return
+	}
+	for i, l := range term {
+		if got := b.text(start + i); got != strings.TrimRight(l, " ") {
+			out.fail(finding{Property: "C07", Class: "new", What: "the final model's view is not what the terminal shows when Run returns", Input: desc,
+				Expected: fmt.Sprintf("line %d = %q", i, l), Observed: fmt.Sprintf("%q", got)})
+			return
+		}
+	}
+	if b.cc != 0 || b.text(b.cr) != "" {
+		out.fail(finding{Property: "C07", Class: "new", What: "cursor not at the first column of an empty line after the view", Input: desc,
+			Observed: fmt.Sprintf("col %d, row text %q", b.cc, b.text(b.cr))})
+	}
+	for rrow := b.cr + 1; rrow < b.top+th; rrow++ {
+		if b.text(rrow) != "" {
+			out.fail(finding{Property: "C07", Class: "new", What: "stale content of an earlier view remains below the final view", Input: desc, Observed: b.text(rrow)})
+			break
+		}
 	}
 }
 
